@@ -27,7 +27,7 @@ ASSUMPTIONS = [
     "are dropped and counted, as the quantifier bounds length and nesting",
     "text is valid UTF-8 (non-text file content is outside 'text offered as a definition')",
 ]
-MIN_MONITORS = {"outcome": 30000, "outcome-error-with-path": 15000, "outcome-model": 2000, "file-name": 1500, "corner": 2000}
+MIN_MONITORS = {"outcome": 30000, "outcome-error-with-path": 15000, "outcome-model": 2000, "file-name": 1200, "corner": 2000}
 THOROUGH_MIN_SCALE = 10
 
 
